@@ -19,6 +19,9 @@ Three independent lines of evidence per update:
      boundary i (a write first writes half of its data), the code's own error handling runs, then the
      target is read back: old or new, loadable.
 Fidelity: histories of 1..10 updates of random values, reloaded with the real loaders.
+Typed values (St4sd.TypedStore in lean/St4sd/Model/FsAtomic.lean): histories of typed documents whose updates mostly change
+only the type / representation of a value (1 / True / 1.0, 0 / False / 0.0 / -0.0, 3 / 3.0, nested, dict keys) are written
+by every real writer of the YAML / JSON state files and read back TYPE-EXACTLY (case kind typed-history).
 Several writers (lean/St4sd/Model/FsConc.lean, names / files / open handles): two or three real updates of the same file
 run in their own threads under a deterministic scheduler that preempts them only at the traced file-operation boundaries
 (class Sched); oracle after every operation: previous content or the complete text of one update; the interleaved trace
@@ -34,7 +37,9 @@ import json
 import os
 import shutil
 import tempfile
+import math
 import threading
+from fractions import Fraction
 
 from harness import common
 
@@ -472,7 +477,8 @@ SPECIAL = ["\\", "\\", "\n", "\n", "\t", "\r", "=", "%", "'", '"', "\\n", "\\x41
            "\x7f", "\x80", "\x85", "\xa0", "\xe9", "\xff", "\u0100", "\u20ac", "\u2028", "\u3000", "\uffff",
            "\U0001f600", "\U0010ffff", " ", "#", ";", "[", "]", ":", "$", "{", "}"]
 WORDS = ["Traceback (most recent call last):", "  File \"/tmp/x.py\", line 3, in <module>", "ValueError: bad value",
-         "stage0.simulate failed", "exit code 1", "KeyError: 'x'", "C:\\temp\\new", "50% done", "a=b", "résumé", "naïve"]
+         "stage0.simulate failed", "exit code 1", "KeyError: 'x'", "C:\\temp\\new", "50% done", "a=b", "résumé", "naïve",
+         "1", "1.0", "True", "0", "None"]
 WS_EDGE = [" ", "\n", "\t", "\r\n", "\x0b", "\x0c", "\x1c", "\x85", "\xa0", "\u2003", "\u3000"]
 
 
@@ -998,7 +1004,7 @@ def output_case(ctx, case, workdir):
                 report(ctx, "output-value-not-read-back", case, dict(where, key=k, field="<entry>", expected=k, loaded=None))
                 continue
             for f, e in exp_vals.items():
-                if got.get(f) != e:
+                if not texact(got.get(f), e):
                     report(ctx, "output-value-not-read-back", case, dict(where, key=k, field=f, expected=e, loaded=got.get(f)))
                     break
 
@@ -1025,7 +1031,7 @@ def details_case(ctx, case, workdir):
         db.doc = doc
         mon.try_generate_status_details()
         got = json.load(_orig_open(target))
-        if got != doc:
+        if not texact(got, doc):
             report(ctx, "status-details-not-read-back", case, {"expected": doc, "loaded": got})
     db.doc = case["docs"][-1]
 
@@ -1037,7 +1043,7 @@ def details_case(ctx, case, workdir):
                  mon.try_generate_status_details, lambda: None, lambda s: None, {"status_details.json": load},
                  boundaries=case.get("boundaries"))
     got = load(target)
-    if got != case["docs"][-1]:
+    if not texact(got, case["docs"][-1]):
         report(ctx, "status-details-not-read-back", case, {"expected": case["docs"][-1], "loaded": got})
 
 
@@ -1097,6 +1103,570 @@ def instance_case(ctx, case, workdir):
             ctx.tag("instance:reloaded-with-experimentFromInstance")
         except Exception as exc:  # noqa
             report(ctx, "instance-does-not-reload-after-update", case, {"error": type(exc).__name__ + ": " + str(exc)[:300]})
+
+
+# ----------------------------------------------------------------------------------------
+# typed values in the YAML / JSON state files: exact (type-exact) read-back over update histories
+# ----------------------------------------------------------------------------------------
+# Python's == identifies 1 / True / 1.0, 0 / False / 0.0 / -0.0, 3 / 3.0 (also inside lists and dicts); the files do not.
+# "Reading back returns exactly the values last written" is checked with a TYPE-EXACT comparison: both sides are
+# translated to the tagged encoding the Lean model (St4sd.TypedStore.YVal) uses and the encodings are compared.
+
+def _ksort(k):
+    """type-blind canonical order of the keys of one dict (keys of one dict are pairwise ==-different)"""
+    if isinstance(k, (bool, int)):
+        return (0, Fraction(int(k)), "")
+    if isinstance(k, float):
+        if math.isinf(k) or math.isnan(k):
+            return (0, Fraction(10 ** 400 if k > 0 else -10 ** 400), "")
+        return (0, Fraction(k), "")
+    if isinstance(k, str):
+        return (1, 0, k)
+    if k is None:
+        return (2, 0, "")
+    return (3, 0, repr(k))
+
+
+def yenc(v):
+    """typed value -> tagged encoding (JSON-able, exact for floats)"""
+    if v is None:
+        return {"t": "n"}
+    if type(v) is bool:
+        return {"t": "b", "v": v}
+    if type(v) is int:
+        return {"t": "i", "v": v}
+    if type(v) is float:
+        if v == 0 and math.copysign(1, v) < 0:
+            return {"t": "x", "k": 0}
+        if math.isinf(v):
+            return {"t": "x", "k": 1 if v > 0 else 2}
+        if math.isnan(v):
+            return {"t": "o", "v": "nan"}
+        n, d = v.as_integer_ratio()
+        return {"t": "f", "m": n, "e": d.bit_length() - 1}
+    if type(v) is str:
+        return {"t": "s", "v": [ord(c) for c in v]}
+    if type(v) is list:
+        return {"t": "l", "v": [yenc(x) for x in v]}
+    if type(v) is dict:
+        flat = []
+        for k in sorted(v, key=_ksort):
+            flat += [yenc(k), yenc(v[k])]
+        return {"t": "m", "v": flat}
+    return {"t": "o", "v": "%s:%r" % (type(v).__name__, v)}
+
+
+def ydec(e):
+    t = e["t"]
+    if t == "n":
+        return None
+    if t in ("b", "i"):
+        return e["v"]
+    if t == "f":
+        return float(Fraction(e["m"], 2 ** e["e"]))
+    if t == "x":
+        return [-0.0, float("inf"), float("-inf")][e["k"]]
+    if t == "s":
+        return "".join(chr(c) for c in e["v"])
+    if t == "l":
+        return [ydec(x) for x in e["v"]]
+    if t == "m":
+        return {ydec(e["v"][i]): ydec(e["v"][i + 1]) for i in range(0, len(e["v"]), 2)}
+    raise common.InfraError("cannot decode typed value %r" % (e,))
+
+
+def ycanon(e):
+    return None if e is None else json.dumps(e, sort_keys=True)
+
+
+def texact(a, b):
+    """type-exact equality of two loaded / written values (dict insertion order is not a value)"""
+    return ycanon(yenc(a)) == ycanon(yenc(b))
+
+
+def has_tag_o(e):
+    if e["t"] == "o":
+        return True
+    if e["t"] in ("l", "m"):
+        return any(has_tag_o(x) for x in e["v"])
+    return False
+
+
+TYPED_FLOWIR = """
+variables:
+  default:
+    global:
+      greeting: hello
+      dt: 1
+    stages:
+      0:
+        sv: 1
+components:
+- name: c0
+  stage: 0
+  command:
+    executable: echo
+    arguments: "%(greeting)s %(dt)s"
+  variables:
+    cv: 1
+  resourceManager:
+    config:
+      walltime: 60.0
+  resourceRequest:
+    numberProcesses: 1
+  workflowAttributes:
+    maxRestarts: 3
+    isMigratable: false
+- name: c1
+  stage: 1
+  command:
+    executable: echo
+    arguments: "%(greeting)s"
+output:
+  greeting:
+    data-in: stage0.c0/out.txt:ref
+  Other:
+    data-in: stage0.c0/res.csv:copy
+"""
+
+STORE_SLOTS = ["global:dt", "global:c14typed", "stage0:sv", "comp:cv", "opt:#resourceManager.config.walltime",
+               "opt:#resourceRequest.numberProcesses", "opt:#workflowAttributes.maxRestarts",
+               "opt:#workflowAttributes.isMigratable"]
+
+
+def _typed_exp(workdir, fresh=False, key=("typed",)):
+    E = env()
+    if fresh:
+        _Exp.cache.pop(key, None)
+    if key not in _Exp.cache:
+        cwd = os.getcwd()
+        sub = tempfile.mkdtemp(prefix="typed-", dir=workdir)
+        vf = os.path.join(sub, "vars.yaml")
+        with _orig_open(vf, "w") as fh:
+            fh.write("global:\n  uv: 1\n")
+        try:
+            exp = E["TU"].experiment_from_flowir(TYPED_FLOWIR, sub, checkExecutables=False, variable_files=[vf])
+        finally:
+            os.chdir(cwd)
+        _Exp.cache[key] = exp
+        out = os.path.realpath(exp.instanceDirectory.outputDir)
+        if not out.startswith(os.path.realpath(workdir) + os.sep):
+            _WORK.setdefault("shadow", []).append(os.path.dirname(out))
+    return _Exp.cache[key]
+
+
+def _store_slot_set(U, slot, value):
+    kind, _, name = slot.partition(":")
+    if kind == "global":
+        U.set_global_variable(name, value)
+    elif kind == "stage0":
+        U.set_stage_variable(0, name, value)
+    elif kind == "comp":
+        U.set_component_option((0, "c0"), name, value)
+    elif kind == "opt":
+        U.set_component_option((0, "c0"), name, value)
+    else:
+        raise common.InfraError("unknown slot %r" % slot)
+
+
+_MISSING = "<missing>"
+
+
+def _store_slot_get(doc, slot):
+    kind, _, name = slot.partition(":")
+    try:
+        if kind == "global":
+            return doc["variables"]["default"]["global"][name]
+        if kind == "stage0":
+            return doc["variables"]["default"]["stages"][0][name]
+        comp = [c for c in doc["components"] if c.get("name") == "c0" and c.get("stage", 0) == 0][0]
+        if kind == "comp":
+            return comp["variables"][name]
+        cur = comp
+        for part in name[1:].split("."):
+            cur = cur[part]
+        return cur
+    except (KeyError, IndexError, TypeError):
+        return _MISSING
+
+
+def _yload(path):
+    import experiment.model.frontends.flowir as F
+    with _orig_open(path) as fh:
+        return F.yaml_load(fh)
+
+
+def typed_history(ctx, case, workdir):
+    """case: {"kind":"typed-history","driver":"dump"|"store"|"generate"|"manifest"|"restart"|"details","docs":[tagged
+    documents], ...}: every document is written by the real writer of `driver` (one update each), the file is loaded
+    with the real loader after every update and must hold exactly (type-exactly) the document just written.
+      dump     - FlowIRExperimentConfiguration._yaml_dump_atomically(doc, path, **style) (the primitive behind
+                 flowir_instance.yaml and manifest.yaml), any document
+      store    - documents are {slot: scalar}: the slots (global / stage / component variables, component options) are
+                 set through the FlowIRConcrete API of the live configuration, then store_unreplicated_flowir_to_disk()
+      generate - as store, written by _generate_instance_files(True, True, errors)
+      manifest - documents are {target: source} string maps: Manifest.update(doc) then _generate_instance_files
+      restart  - documents are {variable: scalar}: input/variables.yaml of the instance is rewritten, then
+                 Experiment.experimentFromInstance(location) updates the instance files
+      details  - JSON documents returned by the status database, StatusMonitor.try_generate_status_details()"""
+    E = env()
+    driver = case["driver"]
+    docs = [ydec(d) for d in case["docs"]]
+    written, reads, extra_fail = [], [], []
+    cwd = os.getcwd()
+    if driver == "dump":
+        d = tempfile.mkdtemp(prefix="typed-dump-", dir=workdir)
+        path = os.path.join(d, "conf.yaml")
+        style = dict(sort_keys=False, default_flow_style=False) if case.get("style") == "instance" else {}
+        dump = E["C"].FlowIRExperimentConfiguration._yaml_dump_atomically
+        for doc in docs:
+            dump(copy.deepcopy(doc), path, **style)
+            written.append(doc)
+            reads.append(_yload(path))
+        junk = sorted(set(os.listdir(d)) - {"conf.yaml"})
+        if junk:
+            ctx.tag("junk-temp-file-left-behind:typed-dump")
+        shutil.rmtree(d, ignore_errors=True)
+    elif driver in ("store", "generate"):
+        exp = _typed_exp(workdir, fresh=bool(case.get("fresh")))
+        conf = exp.configuration
+        U = conf._unreplicated
+        inst = os.path.join(os.path.realpath(conf._conf_dir), "flowir_instance.yaml")
+        state = {}
+        import experiment.model.frontends.flowir as F
+        for i, doc in enumerate(docs):
+            for slot, value in doc.items():
+                _store_slot_set(U, slot, value)
+                state[slot] = value
+            if driver == "store":
+                conf.store_unreplicated_flowir_to_disk()
+            else:
+                errs = []
+                conf._generate_instance_files(True, True, errs)
+                if errs:
+                    extra_fail.append(("typed-update-raises", {"after_update": i + 1, "error": repr(errs[0])[:300]}))
+            loaded = _yload(inst)
+            # the values last written = what the live configuration holds now (FlowIRConcrete.instance() normalises the
+            # type of some known component options, e.g. walltime -> float: that happens before the file is written)
+            whole = U.instance(ignore_errors=True, inject_missing_fields=False, fill_in_all=False, is_primitive=True)
+            written.append({slot: _store_slot_get(whole, slot) for slot in state})
+            reads.append({slot: _store_slot_get(loaded, slot) for slot in state})
+            if not texact(whole, loaded):
+                extra_fail.append(("typed-instance-document-not-read-back",
+                                   {"after_update": i + 1, "slots": {k: repr(v) for k, v in state.items()},
+                                    "loaded_slots": {k: repr(_store_slot_get(loaded, k)) for k in state}}))
+    elif driver == "manifest":
+        exp = _typed_exp(workdir, fresh=bool(case.get("fresh")))
+        conf = exp.configuration
+        man = os.path.join(os.path.realpath(conf._conf_dir), "manifest.yaml")
+        base = set(conf.manifestData)
+        for i, doc in enumerate(docs):
+            conf._manifest.update(doc)
+            errs = []
+            conf._generate_instance_files(True, True, errs)
+            if errs:
+                extra_fail.append(("typed-update-raises", {"after_update": i + 1, "error": repr(errs[0])[:300]}))
+            loaded = _yload(man)
+            now = conf.manifestData
+            written.append({k: v for k, v in now.items() if k not in base})
+            reads.append({k: v for k, v in loaded.items() if k not in base} if isinstance(loaded, dict) else loaded)
+            if not texact(now, loaded):
+                extra_fail.append(("typed-manifest-not-read-back", {"after_update": i + 1}))
+        for k in list(conf._manifest._manifest):
+            if k not in base:
+                del conf._manifest._manifest[k]
+    elif driver == "restart":
+        import yaml
+        exp = _typed_exp(workdir, fresh=bool(case.get("fresh")), key=("typed-restart",))
+        loc = exp.instanceDirectory.location
+        inst = os.path.join(os.path.realpath(exp.configuration._conf_dir), "flowir_instance.yaml")
+        uv = os.path.join(loc, "input", "variables.yaml")
+        for i, doc in enumerate(docs):
+            with _orig_open(uv, "w") as fh:
+                yaml.safe_dump({"global": doc}, fh)
+            try:
+                E["D"].Experiment.experimentFromInstance(loc)
+            except Exception as exc:  # noqa
+                extra_fail.append(("typed-update-raises", {"after_update": i + 1, "error": type(exc).__name__ + ": " + str(exc)[:300]}))
+            finally:
+                os.chdir(cwd)
+            loaded = _yload(inst)
+            written.append(dict(doc))
+            try:
+                st0 = loaded["variables"]["default"]["stages"][0]
+            except (KeyError, TypeError):
+                st0 = {}
+            reads.append({k: st0.get(k, _MISSING) for k in doc})
+        with _orig_open(uv, "w") as fh:
+            fh.write("global:\n  uv: 1\n")
+    elif driver == "details":
+        exp = _typed_exp(workdir)
+        mon = E["O"].StatusMonitor(exp, report_components=False)
+        db = _FakeStatusDB()
+        mon._status_database = db
+        target = os.path.join(os.path.realpath(exp.instanceDirectory.outputDir), "status_details.json")
+        write_disk(target, None)
+        for doc in docs:
+            db.doc = copy.deepcopy(doc)
+            mon.try_generate_status_details()
+            written.append(doc)
+            with _orig_open(target) as fh:
+                reads.append(json.load(fh))
+    else:
+        raise common.InfraError("unknown typed-history driver %r" % driver)
+
+    encw = [yenc(w) for w in written]
+    encr = [yenc(r) for r in reads]
+    retyped = sum(1 for a, b in zip(written, written[1:]) if a == b and not texact(a, b))
+    ident = sum(1 for a, b in zip(written, written[1:]) if texact(a, b))
+    ctx.case(case, nontrivial=len(docs) >= 2 and retyped >= 1,
+             tags=["typed:%s:updates=%d" % (driver, len(docs)), "typed:%s:retyped-updates=%s" % (driver, min(retyped, 3)),
+                   "typed:%s:identical-rewrites=%s" % (driver, min(ident, 2))])
+    for what, detail in extra_fail:
+        report(ctx, what, case, detail)
+    for i, (w, r) in enumerate(zip(encw, encr)):
+        if ycanon(w) != ycanon(r):
+            report(ctx, "typed-value-not-read-back-" + driver, case,
+                   {"after_update": i + 1, "written": repr(written[i]), "loaded": repr(reads[i]),
+                    "previous": repr(written[i - 1]) if i else None,
+                    "equal_under_python_eq": bool(written[i] == reads[i])})
+            break
+    if any(has_tag_o(e) for e in encw + encr):
+        return
+    if _TDEFER[0] is not None and not isinstance(ctx, _Probe):
+        _TDEFER[0].append((case, driver, encw, encr))
+        return
+    _typed_compare(ctx, [(case, driver, encw, encr)])
+
+
+_TDEFER = [None]      # when a list: the model comparisons of typed histories are collected and answered in one batch
+
+
+def _typed_compare(ctx, items):
+    if not items:
+        return
+    mo = ctx.model([{"op": "ystore", "docs": encw} for _, _, encw, _ in items])
+    if mo is None:
+        return
+    for (case, driver, encw, encr), m in zip(items, mo):
+        ctx.compare("value loaded after every update of a %s history == TypedStore.readBacks writeAlways" % driver, case,
+                    {"reads": [ycanon(x) for x in m["reads"]]}, {"reads": [ycanon(x) for x in encr]})
+        if not all(m["pyeq_skip_same"]):
+            ctx.tag("typed:history-distinguishes-a-pyeq-skipping-writer")
+        if not m["structural_skip_same"]:
+            ctx.compare("structural_skip_harmless", case, {"same": True}, {"same": False})
+
+
+EQ_CLASSES = [[0, False, 0.0, -0.0], [1, True, 1.0], [3, 3.0], [-1, -1.0], [2, 2.0], [60, 60.0], [2 ** 53, float(2 ** 53)],
+              [10 ** 22, 1e22], [100, 100.0, 1e2]]
+LOOKALIKES = [[None, "", "null", "~", "None"], [1, "1", "1.0", "true", "True", "yes", "on"], [0.5, "0.5", "5e-1", ".5"],
+              [0, "0", "0.0", "false", "no", "off", "-0.0"], [3, "3", "3.0", "0x3", "03", "3e0"], [float("inf"), ".inf", "inf"],
+              ["a", "a ", "A"], [12, "12", "1_2", "0o14"]]
+OTHER_SCALARS = [2.5, -3, 7, 1e-5, 0.1, "x", "hello world", "é€", "a: b", "- x", "#c", "%(dt)s", "[1]", "{a: 1}", "multi\nline",
+                 "2026-09-26", "1:30", "=", "<<", 4.5, 10 ** 30]
+
+
+def _eq_variant(rng, v):
+    """another value that Python's == identifies with v but that is of another type / representation (or None)"""
+    for cls in EQ_CLASSES:
+        for x in cls:
+            if type(x) is type(v) and x == v and repr(x) == repr(v):
+                others = [y for y in cls if repr(y) != repr(v)]
+                return rng.choice(others)
+    if type(v) is int and abs(v) < 2 ** 53:
+        return float(v)
+    if type(v) is float and v.is_integer() and abs(v) < 2 ** 53:
+        return int(v)
+    return None
+
+
+def gen_scalar(rng, domain):
+    """domain: 'any' | 'var' (FlowIR variable: no None) | 'json' | 'str'"""
+    r = rng.random()
+    if domain == "str":
+        return str(rng.choice(rng.choice(LOOKALIKES + [OTHER_SCALARS]))) if r < 0.8 else gen_text(rng, 0.0)
+    if r < 0.45:
+        v = rng.choice(rng.choice(EQ_CLASSES))
+    elif r < 0.7:
+        v = rng.choice(rng.choice(LOOKALIKES))
+    elif r < 0.95:
+        v = rng.choice(OTHER_SCALARS)
+    else:
+        v = rng.randint(-5, 5) * rng.choice([1, 1.0, 0.5])
+    if domain == "var" and v is None:
+        v = ""
+    if domain == "var" and isinstance(v, str) and any(ch in v for ch in "[]%{}\n"):
+        # FlowIR interprets these inside variable values (array access, references to variables): not a plain value
+        v = "plain"
+    if domain == "json" and type(v) is float and (math.isinf(v) or math.isnan(v)):
+        v = 1.5
+    if domain == "json" and type(v) is int and abs(v) > 2 ** 60:
+        v = 2 ** 53
+    return v
+
+
+def gen_tree(rng, domain, depth=0):
+    r = rng.random()
+    if depth >= 2 or r < 0.45:
+        return gen_scalar(rng, domain)
+    if r < 0.7:
+        return [gen_tree(rng, domain, depth + 1) for _ in range(rng.randint(0, 3))]
+    out = {}
+    for _ in range(rng.randint(1, 3)):
+        if domain == "json" or rng.random() < 0.7:
+            k = rng.choice(["a", "b", "dt", "1", "true", "null", "", "é", "a b"])
+        else:
+            k = rng.choice([0, 1, True, 1.0, 2, 2.0, None, 0.5, -1, False])
+        out[k] = gen_tree(rng, domain, depth + 1)
+    return out
+
+
+def _mutate(rng, v, domain, mode):
+    """one update of a document: 'retype' replaces one scalar (or one key) by an ==-equal one of another type,
+    'same' returns an identical copy, 'reorder' the same mapping with another insertion order, 'change' a really
+    different value somewhere"""
+    v = copy.deepcopy(v)
+    if mode == "same":
+        return v
+    if type(v) is dict and v:
+        if mode == "reorder":
+            ks = list(v)
+            rng.shuffle(ks)
+            return {k: (_mutate(rng, v[k], domain, mode) if type(v[k]) in (dict, list) else v[k]) for k in ks}
+        ks = list(v)
+        if mode == "retype" and domain != "json" and rng.random() < 0.2:
+            # retype a key: {1: x} -> {True: x} -> {1.0: x}
+            cands = [k for k in ks if type(k) is not str and k is not None and _eq_variant(rng, k) is not None]
+            if cands:
+                k = rng.choice(cands)
+                nk = _eq_variant(rng, k)
+                return {(nk if kk is k or (type(kk) is type(k) and kk == k) else kk): vv for kk, vv in v.items()}
+        if mode == "retype" and domain != "json" and rng.random() < 0.1:
+            # a key and its look-alike of another type: 1 / '1', True / 'true', None / 'null' (never ==-equal)
+            pairs = [(1, "1"), ("1", 1), (True, "true"), ("true", True), (None, "null"), ("null", None), (0.5, "0.5"), (2, "2")]
+            cands = [k for k in ks if any(type(k) is type(a) and k == a for a, _ in pairs)]
+            if cands:
+                k = rng.choice(cands)
+                nk = [b for a, b in pairs if type(k) is type(a) and k == a][0]
+                if not any(type(kk) is type(nk) and kk == nk for kk in ks):
+                    return {(nk if (type(kk) is type(k) and kk == k) else kk): vv for kk, vv in v.items()}
+        # prefer a child where the mutation can apply
+        rng.shuffle(ks)
+        for k in ks:
+            nv = _mutate(rng, v[k], domain, mode)
+            if not texact(nv, v[k]):
+                v[k] = nv
+                return v
+        if mode == "change":
+            v[rng.choice(["a", "zz", "dt"])] = gen_scalar(rng, domain)
+        return v
+    if type(v) is list and v:
+        if mode == "reorder":
+            return [_mutate(rng, x, domain, mode) if type(x) in (dict, list) else x for x in v]
+        idx = list(range(len(v)))
+        rng.shuffle(idx)
+        for i in idx:
+            nv = _mutate(rng, v[i], domain, mode)
+            if not texact(nv, v[i]):
+                v[i] = nv
+                return v
+        if mode == "change":
+            v.append(gen_scalar(rng, domain))
+        return v
+    if mode == "retype":
+        nv = _eq_variant(rng, v) if type(v) in (bool, int, float) else None
+        if nv is not None and domain == "json" and type(nv) is float and (math.isinf(nv) or (nv == 0 and math.copysign(1, nv) < 0)):
+            nv = None if type(v) is float else 0.0
+        if nv is not None:
+            return nv
+        # strings / None: a look-alike of another type ('' / None, '1' / 1): never ==-equal, always a real change
+        for cls in LOOKALIKES:
+            if any(type(x) is type(v) and x == v for x in cls):
+                pool = [y for y in cls if repr(y) != repr(v) and not (domain == "var" and y is None)
+                        and not (domain == "json" and type(y) is float and math.isinf(y))]
+                if pool:
+                    return rng.choice(pool)
+        return v
+    if mode == "change":
+        for _ in range(5):
+            nv = gen_scalar(rng, domain)
+            if not (nv == v):
+                return nv
+        return "changed"
+    return v
+
+
+def _history(rng, first, domain, n):
+    docs = [first]
+    for _ in range(n - 1):
+        mode = rng.choice(["retype"] * 6 + ["same"] * 2 + ["change"] * 2 + ["reorder"])
+        docs.append(_mutate(rng, docs[-1], domain, mode))
+    return docs
+
+
+def gen_typed_history(rng, driver):
+    n = rng.randint(2, 7)
+    case = {"kind": "typed-history", "driver": driver}
+    if driver == "dump":
+        first = gen_tree(rng, "any")
+        if type(first) is not dict or not first:
+            first = {"variables": {"default": {"global": {"dt": first}}}, "n": gen_scalar(rng, "any")}
+        docs = _history(rng, first, "any", n)
+        case["style"] = rng.choice(["instance", "manifest"])
+    elif driver in ("store", "generate"):
+        slots = rng.sample(STORE_SLOTS, rng.randint(1, 4))
+        first = {s: gen_scalar(rng, "var") for s in slots}
+        docs = _history(rng, first, "var", n)
+    elif driver == "manifest":
+        def src():
+            return gen_scalar(rng, "str").replace(":", "_") + rng.choice(["", ":copy", ":link"])
+        first = {rng.choice(["c14data", "c14/x", "1", "1.0", "true", "null"]): src() for _ in range(rng.randint(1, 3))}
+        docs = [first]
+        for _ in range(n - 1):
+            d = dict(docs[-1])
+            if rng.random() < 0.3:
+                pass
+            else:
+                d[rng.choice(list(d))] = src()
+            docs.append(d)
+    elif driver == "restart":
+        names = rng.sample(["uv", "dt", "greeting", "zz"], rng.randint(1, 3))
+        first = {k: gen_scalar(rng, "var") for k in names}
+        docs = _history(rng, first, "var", n)
+        case["fresh"] = rng.random() < 0.3
+    elif driver == "details":
+        first = gen_tree(rng, "json")
+        if type(first) is not dict or not first:
+            first = {"stages": first, "n": gen_scalar(rng, "json")}
+        docs = _history(rng, first, "json", n)
+    else:
+        raise common.InfraError(driver)
+    case["docs"] = [yenc(d) for d in docs]
+    return case
+
+
+def _tdocs(*docs):
+    return [yenc(d) for d in docs]
+
+
+TYPED_CORPUS = [
+    {"kind": "typed-history", "driver": "dump", "style": "instance",
+     "docs": _tdocs({"dt": 2}, {"dt": 3}, {"dt": 3.0}, {"dt": 4.5}, {"dt": 1}, {"dt": True}, {"dt": 0}, {"dt": False}, {"dt": 0.0}, {"dt": -0.0}, {"dt": 7})},
+    {"kind": "typed-history", "driver": "dump", "style": "manifest",
+     "docs": _tdocs({"a": [1, {"b": 0}], 1: "x"}, {"a": [True, {"b": 0}], 1: "x"}, {"a": [True, {"b": False}], 1: "x"}, {"a": [True, {"b": False}], 1.0: "x"},
+                    {"a": [True, {"b": False}], 1.0: "x"}, {1.0: "x", "a": [True, {"b": False}]})},
+    {"kind": "typed-history", "driver": "dump", "style": "manifest",
+     "docs": _tdocs({"v": None}, {"v": ""}, {"v": "null"}, {"v": "1"}, {"v": 1}, {"v": "1.0"}, {"v": 1.0}, {"v": "true"}, {"v": True})},
+    {"kind": "typed-history", "driver": "store", "docs": _tdocs({"global:dt": 3}, {"global:dt": 3.0}, {"global:dt": 3.0}, {"global:dt": 1}, {"global:dt": True})},
+    {"kind": "typed-history", "driver": "store",
+     "docs": _tdocs({"opt:#resourceManager.config.walltime": 60.0, "stage0:sv": 0}, {"opt:#resourceManager.config.walltime": 60, "stage0:sv": 0},
+                    {"opt:#resourceManager.config.walltime": 60, "stage0:sv": False}, {"comp:cv": 1.0}, {"comp:cv": 1})},
+    {"kind": "typed-history", "driver": "generate", "docs": _tdocs({"global:c14typed": 0}, {"global:c14typed": 0.0}, {"global:c14typed": False})},
+    {"kind": "typed-history", "driver": "restart", "docs": _tdocs({"dt": 2}, {"dt": 3}, {"dt": 3.0}, {"dt": 1}, {"dt": True}, {"dt": 0}, {"dt": False}, {"dt": 0.0})},
+    {"kind": "typed-history", "driver": "manifest", "docs": _tdocs({"c14data": "1"}, {"c14data": "1.0"}, {"c14data": "1.0"}, {"c14data": "true:link"})},
+    {"kind": "typed-history", "driver": "details",
+     "docs": _tdocs({"n": 1, "l": [0, 1.0]}, {"n": True, "l": [0, 1.0]}, {"n": True, "l": [False, 1]}, {"n": 1.0, "l": [0.0, 1]}, {"n": 1.0, "l": [0.0, 1]})},
+]
 
 
 # ----------------------------------------------------------------------------------------
@@ -1720,6 +2290,11 @@ def shrinker(ctx):
                             return dict(cur, rounds=rs)
                         cur = with_desc(common.shrink_str(arg, lambda s: _fails(ctx, what, with_desc(s)), 80))
             return cur if _fails(ctx, what, cur) else None
+        if case.get("kind") == "typed-history":
+            cur = dict(case, fresh=True)     # a new instance: the shrunk history does not depend on earlier cases
+            docs = common.shrink_list(cur["docs"], lambda ds: len(ds) >= 1 and _fails(ctx, what, dict(cur, docs=ds)), 40)
+            cur = dict(cur, docs=docs)
+            return cur if _fails(ctx, what, cur) else None
         if case.get("kind") == "output" and not case.get("atomic"):
             cur = dict(case)
             ups = common.shrink_list(cur["updates"], lambda us: len(us) >= 1 and _fails(ctx, what, dict(cur, updates=us)), 40)
@@ -1768,6 +2343,8 @@ def dispatch(ctx, case):
         details_case(ctx, case, workdir())
     elif k == "instance":
         instance_case(ctx, case, workdir())
+    elif k == "typed-history":
+        typed_history(ctx, case, workdir())
     elif k == "escape":
         check_escape(ctx, [case["s"]])
     elif k == "status-conc":
@@ -1823,7 +2400,18 @@ def _setup(ctx):
                 "its open and its close, at the end a text that was installed, and the loader must accept it; non-trivial = "
                 ">= 2 writer switches, or 1 switch and complete texts of different lengths. (f) random programs of file "
                 "operations through several handles (shared paths included) on the real file system vs FsConc.step. "
-                "Distinct by canonical JSON.")
+                "(g) typed histories: 2..7 successive documents written by the real writers - "
+                "FlowIRExperimentConfiguration._yaml_dump_atomically (any YAML document, instance and manifest dump styles), "
+                "store_unreplicated_flowir_to_disk / _generate_instance_files after setting global / stage / component "
+                "variables and component options through the FlowIRConcrete API, Manifest.update + _generate_instance_files, "
+                "Experiment.experimentFromInstance after rewriting input/variables.yaml, try_generate_status_details - where "
+                "most updates change only the TYPE or representation of one value or key to one that Python's == identifies "
+                "with the stored one (0/False/0.0/-0.0, 1/True/1.0, 3/3.0, 2**53, 1e22; nested in lists and dicts; dict keys), "
+                "others rewrite the identical document, permute the insertion order, swap look-alikes ('' / None / 'null', "
+                "1 / '1' / 'true') or really change a value; after every update the file is loaded with the real loader and "
+                "compared TYPE-EXACTLY (tagged encoding, exact floats) with the document just written and with "
+                "TypedStore.readBacks; non-trivial = >= 2 updates of which >= 1 is ==-equal to its predecessor but not "
+                "type-exactly equal. Distinct by canonical JSON.")
     ctx.assumptions = [
         "os.rename/os.replace atomically replace the target; open(...,'w') truncates; a flushed write reaches the file (POSIX)",
         "crash = process death at a Python-level file-operation boundary; the flushed run makes every write a boundary, the "
@@ -1885,9 +2473,25 @@ def run(ctx):
             for fresh in (True, False):
                 dispatch(ctx, dict(kind="instance", writer="store", fresh=fresh, **p))
                 dispatch(ctx, dict(kind="instance", writer="generate", fresh=fresh, reload=(not fresh), **p))
+        # (g) typed values: histories of updates that change only the type / representation of a stored value
+        _tick("single-writer parts")
+        _TDEFER[0] = []
+        try:
+            for c in TYPED_CORPUS:
+                dispatch(ctx, copy.deepcopy(c))
+            plan = []
+            for drv, nq, nt in (("dump", 60, 700), ("store", 30, 300), ("generate", 8, 80), ("manifest", 8, 80),
+                                ("restart", 12, 120), ("details", 25, 300)):
+                plan += [drv] * (nq if quick else nt)
+            rng.shuffle(plan)
+            for drv in plan:
+                dispatch(ctx, gen_typed_history(rng, drv))
+            _typed_compare(ctx, _TDEFER[0])
+        finally:
+            _TDEFER[0] = None
+        _tick("typed histories")
         # (e) several writers of one file: deterministic interleavings at the file-operation boundaries
         _DEFER[0] = []
-        _tick("single-writer parts")
         try:
             for c in FS_CORPUS + [gen_fs_prog(rng) for _ in range(150 if quick else 1500)]:
                 dispatch(ctx, c)
